@@ -183,6 +183,19 @@ int main()
       try { it.generate_next_primes(); } catch (const std::exception&) { std::cout << "exc" << std::endl; continue; }
       auto& d = *(IteratorData*) it.memory_;
       std::cout << d.primes.size() << " " << it.size_ << " " << d.stop << " " << primeCountUpper(it.start_, d.stop) << std::endl;
+    } else if (t.size() >= 1 && t[0] == "VEC") {
+      // Vector.hpp growth: ops p | r<n> | z<n> | a<k> | c ; prints "size,capacity" after every operation
+      primesieve::Vector<uint64_t> v;
+      static const uint64_t src[4096] = {};
+      std::string out;
+      for (std::size_t i = 1; i < t.size(); i++) {
+        char c = t[i][0]; uint64_t n = t[i].size() > 1 ? u64(t[i].substr(1)) : 0;
+        if (c == 'p') v.push_back(i); else if (c == 'c') v.clear();
+        else if (c == 'r') v.reserve(n); else if (c == 'z') v.resize(n);
+        else v.insert(v.end(), src, src + n);
+        out += (i > 1 ? " " : "") + std::to_string(v.size()) + "," + std::to_string(v.capacity());
+      }
+      std::cout << out << std::endl;
     } else std::cout << "?" << std::endl;
   }
 }
